@@ -3,7 +3,7 @@
 TIER="$1"; SEED="$2"; shift 2
 PROPS="$@"; [ -z "$PROPS" ] && PROPS="C01 C02 C03 C04 C05 C06 C07 C08 C09 C10 C11 C12 C13 C14 C15 C16 C17 C18 C19 C20"
 for p in $PROPS; do
-  out=$(VERIF_SEED=$SEED /verif/check $p --tier $TIER 2>&1); rc=$?
+  out=$(VERIF_SEED=$SEED "$(dirname "$0")/../check" $p --tier $TIER 2>&1); rc=$?
   echo "rc=$rc $(echo "$out" | grep -E "tier=" | cut -c1-160)"
   echo "$out" | grep -E "^VIOLATION|^INCONCLUSIVE|^KNOWN-FINDING|^  key=" | cut -c1-400 | head -8
 done
